@@ -63,7 +63,7 @@ PROPS = {
                 families=[dict(name="race", family="race", quick=0, thorough=0, tags=["data_race", "concurrent_result"]),
                           dict(name="history", family="history", profile="C07", quick=400, thorough=5000, tags=["isolation", "isolation_dirty", "issue_aliased", "panic", "nil", "issues", "msg", "dest"])]),
     "C09": dict(theorems=["C09_struct_order_independent_partial", "C09_fields_order_independent_partial", "C09_deep_order_independent_partial", "C09_deep_premise_is_satisfiable", "C09_input_key_order_irrelevant", "C09_error_state_irrelevant_without_transforms", "C09_engine_computes_semantics"], cone=ENGINE_CONE + ["Proofs/Indep.v", "Proofs/DeepOrder.v"], rule=ENGINE_RULE,
-                families=[eng("engine", "C09", 1000, 16000, ["repeat", "repeat_ptgate", "panic", "nil", "issues", "dest"])   # + the tie itself: an outcome no visit order of the (order-independent) model explains]),
+                families=[eng("engine", "C09", 1000, 16000, ["repeat", "repeat_ptgate", "panic", "nil", "issues", "dest"])]),   # + the tie itself: an outcome no visit order of the (order-independent) model explains
     "C10": dict(theorems=["C10_map_wf", "C10_paths", "C10_sanitize", "C10_field_key", "C10_nested_source_tag_refuted", "C10_engine_computes_semantics"], cone=ENGINE_CONE + ["Proofs/ErrsP.v", "Proofs/FrontEndsP.v"], rule=ENGINE_RULE,
                 families=[eng("engine", "C10", 1200, 20000, ["issues", "first", "panic", "sanitize"]),
                           # the map of a call after arbitrary earlier calls (Collect helpers, undecodable bodies): still keyed by its own issues' paths
